@@ -9,10 +9,10 @@ from oracle.langs import LANGS
 NON_ASCII = {'fr': ['zéro'], 'es': ['dieciséis'], 'pt': ['três'], 'it': ['ventitré'], 'de': ['fünf']}
 
 
-def recasings(w, nat_lower_upper):
+def recasings(w, quick):
     """case variants of w whose case mapping is reversible: lower(upper(v)) == lower(v) == lower(w)"""
     low = strings.rust_lowercase(w)
-    cands = [low, w.upper(), w.capitalize(), ''.join(c.upper() if i % 2 else c for i, c in enumerate(low))]
+    cands = [low, w.upper(), w.capitalize()] + ([] if quick else [''.join(c.upper() if i % 2 else c for i, c in enumerate(low))])
     out = []
     for v in cands:
         if v not in out and strings.rust_lowercase(v) == low and strings.rust_lowercase(v.upper()) == low:
@@ -21,7 +21,8 @@ def recasings(w, nat_lower_upper):
 
 
 def worker(ck: Check, job):
-    code, thr = job
+    code, thr = job[0], job[1]
+    part = job[2] if len(job) > 2 else 'both'
     L = LANGS[code]
     quick = ck.tier == 'quick'
     k = 3 if quick else 4
@@ -33,7 +34,7 @@ def worker(ck: Check, job):
     reps = list(dict.fromkeys(reps))
     st_low = Stream(code, reps, k, prefix='c')
     casev = [z3.BitVec('c_case%d' % i, 8) for i in range(k)]
-    variants = [recasings(r, None) for r in reps]
+    variants = [recasings(r, quick) for r in reps]
     maxv = max(len(v) for v in variants)
     assm = st_low.assm + [z3.ULT(c, maxv) for c in casev]
     # recased stream: same word/separator variables, text chosen by the case variable (clamped to the word's variants)
@@ -50,30 +51,35 @@ def worker(ck: Check, job):
         if i < k - 1:
             slots.append(st_low.slots[2 * i + 1])
     slots = tuple(slots)
-    name = '%s:thr=%s' % (code, thr)
-    ex1 = make_executor(ck, assm)
-    ex1.shape_ignore = {'Occurence'}
-    r_low = run_scanner(ck, ex1, L, st_low.slots, thr)
-    ck.absorb(ex1)
-    ex2 = make_executor(ck, assm)
-    ex2.shape_ignore = {'Occurence'}
-    r_var = run_scanner(ck, ex2, L, slots, thr)
-    ck.absorb(ex2)
-    cov = []
-    A, Bv = merged(cov, r_low), merged(cov, r_var)
-    bad = [('occurrences differ between the lowercase and the recased stream', z3.Not(seq_occ_equal(A, Bv)))]
-    for e in (ex1, ex2):
-        bad += [('panic: %s %s at %s' % (p.kind, p.msg, p.where), c) for p, c in zip(e.panics, conds_of(e.panics))]
-    # validator: text2digits lowercases the phrase itself
-    lowslots = [[(st_low.w[x] == idx, r) for idx, r in enumerate(reps)] for x in range(k)]
-    varslots = [[(c, t.text) for c, t in slots[2 * x]] for x in range(k)]
-    ex3 = make_executor(ck, assm)
-    v_low = merged(cov, run_validator(ck, ex3, L, lowslots))
-    ex4 = make_executor(ck, assm)
-    v_var = merged(cov, run_validator(ck, ex4, L, varslots))
-    ck.absorb(ex3)
-    ck.absorb(ex4)
-    bad.append(('validator result differs between the lowercase and the recased phrase', z3.Not(values_equal(v_low, v_var))))
+    name = '%s:thr=%s%s' % (code, thr, '' if part == 'both' else ':' + part)
+    cov, bad = [], []
+    A = None
+    if part in ('both', 'scan'):
+        ex1 = make_executor(ck, assm)
+        ex1.shape_ignore = {'Occurence'}
+        r_low = run_scanner(ck, ex1, L, st_low.slots, thr)
+        ck.absorb(ex1)
+        ex2 = make_executor(ck, assm)
+        ex2.shape_ignore = {'Occurence'}
+        r_var = run_scanner(ck, ex2, L, slots, thr)
+        ck.absorb(ex2)
+        A, Bv = merged(cov, r_low), merged(cov, r_var)
+        bad.append(('occurrences differ between the lowercase and the recased stream', z3.Not(seq_occ_equal(A, Bv))))
+        for e in (ex1, ex2):
+            bad += [('panic: %s %s at %s' % (p.kind, p.msg, p.where), c) for p, c in zip(e.panics, conds_of(e.panics))]
+    if part in ('both', 'validate'):
+        # validator: text2digits lowercases the phrase itself
+        lowslots = [[(st_low.w[x] == idx, r) for idx, r in enumerate(reps)] for x in range(k)]
+        varslots = [[(c, t.text) for c, t in slots[2 * x]] for x in range(k)]
+        ex3 = make_executor(ck, assm)
+        v_low = merged(cov, run_validator(ck, ex3, L, lowslots))
+        ex4 = make_executor(ck, assm)
+        v_var = merged(cov, run_validator(ck, ex4, L, varslots))
+        ck.absorb(ex3)
+        ck.absorb(ex4)
+        bad.append(('validator result differs between the lowercase and the recased phrase', z3.Not(values_equal(v_low, v_var))))
+        for e in (ex3, ex4):
+            bad += [('panic: %s %s at %s' % (p.kind, p.msg, p.where), c) for p, c in zip(e.panics, conds_of(e.panics))]
 
     def concrete_tokens_var(m):
         toks = []
@@ -102,7 +108,7 @@ def worker(ck: Check, job):
                                                                   [(o['start'], o['end'], o['text']) for o in oa],
                                                                   ''.join(t[0] for t in tv), [(o['start'], o['end'], o['text']) for o in ob])}
     ck.prove_none(name, assm, guard(cov, bad), on_cex, lambda m, c: None)
-    ck.cover(name + ':recased-number', assm + [z3.UGE(B64(A.len), 1), z3.Or(*[c != 0 for c in casev])],
+    ck.cover(name + ':recased-number', assm + ([z3.UGE(B64(A.len), 1)] if A is not None else []) + [z3.Or(*[c != 0 for c in casev])],
              lambda m: {'lang': code, 'recased': [t[0] for t in concrete_tokens_var(m)]})
     ck.bounds['stream_words'] = k
     ck.per_lang[code] = {'behaviour_classes_used': len(reps)}
@@ -129,7 +135,8 @@ def run(ck: Check):
     only = os.environ.get('VERIF_LANGS')
     if only:
         langs = [c for c in langs if c in only.split(',')]
-    jobs = [(c, t) for c in langs for t in ((10.0,) if ck.tier == 'quick' else (0.0, 10.0))]
+    jobs = [(c, t, 'scan') for c in langs for t in ((10.0,) if ck.tier == 'quick' else (0.0, 10.0))]
+    jobs += [(c, 0.0, 'validate') for c in langs]
     run_parallel(ck, worker, jobs)
     ck.outside += ['streams of more than %d word tokens' % (3 if ck.tier == 'quick' else 4),
                    'recasings other than lower / UPPER / Capitalised / aLtErNaTiNg', 'words whose case mapping is not reversible (excluded by the property)']
